@@ -145,8 +145,11 @@ def get_type_graph(t: type) -> graphlib.TopologicalSorter[TypeNode]:
                 if module in (None, "__main__") and rest:
                     module = rest[0]
                 is_class = inspect.isclass(child)
+                # A class knows its own module (a dotted qualname means a nested class, not a module path).
+                if is_class:
+                    module = getattr(child, "__module__", module)
                 ref = refs.forwardref(
-                    refname, is_argument=is_argument, module=module, is_class=is_class
+                    child, is_argument=is_argument, module=module, is_class=is_class
                 )
                 uref = refs.forwardref(
                     unwrapped, is_argument=is_argument, module=module, is_class=is_class
